@@ -31,8 +31,9 @@ macro_rules! imp {
                     "strict_add" => u(0).strict_add(u(1)).out(),
                     "strict_sub" => u(0).strict_sub(u(1)).out(),
                     "strict_add_signed" => u(0).strict_add_signed(s(1)).out(),
+                    "strict_neg" => u(0).strict_neg().out(),
                     "abs_diff" => u(0).abs_diff(u(1)).out(),
-                    "midpoint" => u(0).midpoint(u(1)).out(),
+                    "midpoint" => { if !mode_ok(a[0]) { return Some("skip".into()); } u(1).midpoint(u(2)).out() }
                     _ => return None,
                 }
             } else {
@@ -71,7 +72,7 @@ macro_rules! imp {
                     "strict_add_unsigned" => s(0).strict_add_unsigned(u(1)).out(),
                     "strict_sub_unsigned" => s(0).strict_sub_unsigned(u(1)).out(),
                     "abs_diff" => s(0).abs_diff(s(1)).out(),
-                    "midpoint" => s(0).midpoint(s(1)).out(),
+                    "midpoint" => { if !mode_ok(a[0]) { return Some("skip".into()); } s(1).midpoint(s(2)).out() }
                     _ => return None,
                 }
             })
